@@ -140,3 +140,88 @@ impl<C> Sys for MultiSys<C> where C: FullDuplexMultiChannel<ItemType = u32> + Ve
         Ok(())
     }
 }
+
+// ------------------------------------------------------------------------------------------------ E1: a departing listener's id given to a new one
+
+/// One listener leaves with `leftovers` unconsumed events while another thread, as soon as the stream count allows it, creates a new
+/// listener (MAX_STREAMS is exhausted, so the new one is given the recycled id), sends one event and polls: the newcomer must yield
+/// exactly that event -- nothing the departed listener left behind, and the event must not be swallowed by the departure.
+#[derive(Debug, Clone)]
+pub struct RecycleSpec { pub kind: MultiKind, pub m: usize, pub leftovers: usize }
+
+fn make_recycle<C>(spec: RecycleSpec) -> crate::mcx::Instance
+where C: FullDuplexMultiChannel<ItemType = u32> + Send + Sync + 'static, C::DerivedItemType: Val + Send + 'static {
+    use crate::mcx;
+    use std::sync::Mutex;
+    type S<C> = MutinyStream<'static, u32, C, <C as FullDuplexMultiChannel>::DerivedItemType>;
+    let chan: Arc<C> = C::new(chan_name("c10"));
+    // MAX_STREAMS listeners: the last one is the victim, the others exist throughout
+    let mut all: Vec<S<C>> = (0..spec.m).map(|_| chan.create_stream_for_new_events().0).collect();
+    let victim = all.pop().unwrap();
+    let stable = Mutex::new(all);
+    for k in 0..spec.leftovers { assert!(matches!(chan.send(10 + k as u32), keen_retry::RetryResult::Ok { .. })) }
+    let newcomer: Arc<Mutex<Option<S<C>>>> = Arc::new(Mutex::new(None));
+    let mut bodies: Vec<mcx::Body> = Vec::new();
+    let mut victim = Some(victim);
+    bodies.push(Box::new(move || { let s = victim.take().unwrap(); mcx::rec("rm.call", 0, 0); drop(s); mcx::rec("rm.ret", 0, 0) }));
+    {
+        let (chan, newcomer, m) = (chan.clone(), newcomer.clone(), spec.m);
+        bodies.push(Box::new(move || {
+            // wait for the vacancy (creating a listener beyond MAX_STREAMS is not legal)
+            while chan.running_streams_count() as usize >= m { mcx::yield_now() }
+            mcx::rec("add.call", 0, 0);
+            let (mut s, id) = chan.create_stream_for_new_events();
+            mcx::rec("add.ret", id as i64, 0);
+            let waker = noop_waker();
+            let _ = poll_logged(&mut s, &waker, 9);
+            mcx::rec("s.call", 50, 0);
+            let ok = matches!(chan.send(50), keen_retry::RetryResult::Ok { .. });
+            mcx::rec("s.ret", 50, ok as i64);
+            let _ = poll_logged(&mut s, &waker, 9);
+            *newcomer.lock().unwrap() = Some(s);
+        }));
+    }
+    let sp = spec.clone();
+    crate::mcx::Instance { bodies, check: Box::new(move |out| {
+        let mut v = Vec::new();
+        for (t, p) in out.panics.iter().enumerate() { if let Some(p) = p { v.push(("panic".to_string(), format!("thread {t}: {p}"))) } }
+        if out.terminal != mcx::Terminal::Done { v.push(("no-termination".into(), format!("execution ended {:?}", out.terminal))); return v }
+        let ctx = || mcx::fmt_log(&out.log);
+        let waker = noop_waker();
+        let mut cx = Context::from_waker(&waker);
+        let mut got: Vec<i64> = out.log.iter().filter(|r| r.op == "got" && r.b == 9).map(|r| r.a).collect();
+        let mut nc = newcomer.lock().unwrap().take();
+        if let Some(s) = nc.as_mut() { for _ in 0..(B + 2) { match Pin::new(&mut *s).poll_next(&mut cx) { Poll::Ready(Some(item)) => { got.push(item.val() as i64); drop(item) }, _ => break } } }
+        let accepted = out.log.iter().any(|r| r.op == "s.ret" && r.b == 1);
+        if !accepted { v.push(("rejected".into(), format!("the send of event 50 was rejected on a channel holding {} events: {}", sp.leftovers, ctx()))) }
+        if got.iter().any(|x| *x != 50) { v.push(("stale-event".into(), format!("the new listener yielded {:?}: events sent before it was created (left behind by the listener whose id it was given): {}", got, ctx()))) }
+        else if accepted && got != vec![50] { v.push((if got.is_empty() { "missed-event" } else { "duplicate-event" }.into(), format!("event 50 was sent during the new listener's life, it yielded {:?}: {}", got, ctx()))) }
+        // the listeners that exist throughout: the leftovers, then 50
+        let want: Vec<i64> = (0..sp.leftovers).map(|k| 10 + k as i64).chain(if accepted { Some(50) } else { None }).collect();
+        for (l, s) in stable.lock().unwrap().iter_mut().enumerate() {
+            let mut seq = Vec::new();
+            for _ in 0..(B + 2) { match Pin::new(&mut *s).poll_next(&mut cx) { Poll::Ready(Some(item)) => { seq.push(item.val() as i64); drop(item) }, _ => break } }
+            if seq != want { v.push(("bystander-disturbed".into(), format!("listener {l} exists throughout; accepted {:?}, it yielded {:?}: {}", want, seq, ctx()))) }
+        }
+        let live = sp.m - 1 + nc.is_some() as usize;
+        if chan.running_streams_count() as usize != live { v.push(("stream-accounting".into(), format!("{live} listeners alive, running_streams_count() = {}: {}", chan.running_streams_count(), ctx()))) }
+        drop(nc);
+        stable.lock().unwrap().clear();
+        v
+    }) }
+}
+
+pub fn scenarios(tier: Tier) -> Vec<crate::registry::ScenarioDef> {
+    let mut defs = Vec::new();
+    for kind in MultiKind::NON_LOG {
+        for m in [1usize, 2] {
+            for (idx, leftovers) in [1usize, 2].into_iter().enumerate() {
+                let spec = RecycleSpec { kind, m, leftovers };
+                let bound = match tier { Tier::Quick => 2, Tier::Thorough => 4 };
+                defs.push(crate::registry::ScenarioDef { prop: "C10", family: format!("multi-{}/recycle/M{m}", kind.name()), rung: format!("E{leftovers}"), rung_idx: idx, max_bound: bound,
+                    make: Arc::new(move || { let sp = spec.clone(); crate::dispatch_multi!(sp.kind, 4, sp.m, make_recycle(sp)) }) });
+            }
+        }
+    }
+    defs
+}
